@@ -24,7 +24,7 @@ ASSUMPTIONS = [
 ]
 REQUIRED_CLASSES = ["nontrivial", "lattice", "walk", "arc", "hook", "closed", "repeated_points", "tol<=0",
                     "len<=2", "run_of_deletions", "nothing_deleted", "predicate_true", "predicate_false",
-                    "exact_tie", "almost_closed", "rescaled_by_power_of_two", "len>=66", "long_run", "far_chord", "vertices_as_tuples"]
+                    "exact_tie", "almost_closed", "rescaled_by_power_of_two", "len>=66", "long_run", "far_chord", "vertices_as_tuples", "far_from_origin"]
 QUICK_SHARDS = 4
 
 plot_utils = sut.load("plot_utils")
@@ -50,6 +50,8 @@ def body(ctx, case):
         classes.add("almost_closed")
     if case.get("tuples"):
         classes.add("vertices_as_tuples")
+    if case.get("moved"):
+        classes.add("far_from_origin")
     if case.get("shift"):
         classes.add("rescaled_by_power_of_two")
     if len(pts) >= 66:
@@ -253,8 +255,19 @@ def cases(draw):
         f = 2.0 ** shift
         pts = [[p[0] * f, p[1] * f] for p in pts]
         tol = tol * f
+    moved = False
+    if pts and tol not in (1e300,) and draw(st.integers(0, 3)) == 0:
+        # the same drawing somewhere else on a large sheet / in other user units: translate by 1e3..1e8 extents.
+        # Differences of neighbouring coordinates stay exactly representable relative to the offset (the tie band
+        # is computed from the largest coordinate), but anything computed from ABSOLUTE coordinates loses digits
+        size = max(max(abs(c) for p in pts for c in p), abs(tol), 1e-300)
+        far = size * 10.0 ** draw(st.integers(3, 8))
+        ox, oy = far * draw(st.sampled_from([1, -1, 1, 0])), far * draw(st.sampled_from([1, -1, 1]))
+        pts = [[p[0] + ox, p[1] + oy] for p in pts]
+        moved = True
+        lattice = False
     return {"points": pts, "tol": tol, "lattice": lattice, "kind": kind, "closed": closed, "almost_closed": almost,
-            "shift": shift, "tuples": draw(st.integers(0, 3)) == 0}
+            "shift": shift, "tuples": draw(st.integers(0, 3)) == 0, "moved": moved}
 
 
 def lattice_grid():
